@@ -420,7 +420,8 @@ theorem inv_fzr {cfg : Cfg} {s : St} {ph : Nat → Nat → Ph} {t c k : Nat} {sv
 theorem inv_zrSome {cfg : Cfg} {s : St} {ph : Nat → Nat → Ph} {t c k : Nat} {v : Bytes} (hv : cfg.vals ≠ [])
     (inv : Inv cfg s ph) (ht : t ≤ cfg.pos) (hpc : s.pc t = .zr c k (some v)) :
     Inv cfg (setPc { s with left := upd2 s.left (c + 1) (k / 2) (some v) } t (.hash (c + 1) (k / 2)))
-      (upd2 (upd2 ph c k .arrived) (c + 1) (k / 2) (.held t)) := by
+      (upd2 (upd2 ph c k .arrived) (c + 1) (k / 2) (.held t)) ∧
+    Mono ph (upd2 (upd2 ph c k .arrived) (c + 1) (k / 2) (.held t)) := by
   have hT := inv.thr t ht
   rw [hpc] at hT
   obtain ⟨h1, hc, hkp, hk, hzr, hh⟩ := hT
@@ -437,6 +438,7 @@ theorem inv_zrSome {cfg : Cfg} {s : St} {ph : Nat → Nat → Ph} {t c k : Nat} 
   rw [ek, aL0, aR0] at hN
   obtain ⟨n1, _, _, n4⟩ := hN
   have hpend : ph (c + 1) (k / 2) = .pending := n4.mpr (by simp)
+  refine ⟨?_, mono_trans (mono_arrive ph c k) (mono_hold _ _ _ _ (by rw [upd2_ne _ _ _ _ _ _ (by omega)]; exact hpend))⟩
   apply inv_build inv cfg.pos _ c (k / 2) rfl
   · intros; rfl
   · intro c' j' h; exact upd2_ne _ _ _ _ _ _ h
